@@ -3,9 +3,9 @@ C18 — refinement of the regenerated fee arithmetic (LndModel.Gen.C18, produced
 from lnwallet/chainfee/rates.go, sweep/fee_bumper.go `calcCurrentConfTarget` and the
 `LinearFeeFunction` methods of sweep/fee_function.go) to the hand-written model `LndModel.C18`.
 
-The model computes with exact integers where the code computes in int64 / int32 / uint32; every
-theorem states the exact domain on which they agree, and a checked witness of disagreement outside
-that domain follows it (these are findings about the MODEL's abstraction, at unrealistic inputs).
+The model computes with exact integers where the code computes in int64 / int32 / uint32; each
+refinement theorem states the exact domain on which they agree, and a checked witness of
+disagreement outside that domain follows it (these are findings about the MODEL's abstraction, at unrealistic inputs).
 
 Bound in the spec (trusted): `btcutil.Amount(l.deltaFeeRate).MulF64(float64(p) / 1000)` is the
 parameter `feeRateDelta`; the model calls it `M f.delta p 1000`.
@@ -16,7 +16,7 @@ import LndModel.C18.Model
 namespace LndModel.C18.GenRefine
 open LndModel.Gen LndModel.Gen.GoInt
 
-private theorem wrapI64_id (x : Int) (h : IsI64 x) : wrapI64 x = x := by
+theorem wrapI64_id (x : Int) (h : IsI64 x) : wrapI64 x = x := by
   simp only [IsI64] at h; simp only [wrapI64]; omega
 
 /-! ## chainfee rates -/
